@@ -119,6 +119,9 @@ def main():
     # one name declared twice by declarations of different kinds
     for name, text, planted in gfam.duplicate_kinds():
         cases.append({'kind': 'invalid', 'name': 'duplicate-kinds', 'cls': 'duplicate-declaration:other-kind', 'detail': name, 'planted': planted, 'text': text})
+    # a circular subtype graph with another entity hanging off it
+    for name, text, planted in gfam.cyclic_subtypes():
+        cases.append({'kind': 'invalid', 'name': 'cyclic-subtypes', 'cls': 'circular-subtype-graph', 'detail': name, 'planted': planted, 'text': text})
     # one schema per parametrised diagnostic of the front end (group reference of a non-entity, circular type definition, missing INCLUDE ...)
     for c in gfam.diagnostic_catalogue():
         if c['cls'] == 'always-true-branch':
